@@ -1,4 +1,4 @@
-from vcheck import Unit, TSAN_INSTR
+from vcheck import Unit, TSAN_INSTR, ASAN, ASAN_ENV
 
 UNITS_LOCAL = {"C12": [
     Unit("transactional", ["harness/C12_transactional.cpp"], cxx="g++", flags=TSAN_INSTR, mcsched=True, engine="mcsched",
@@ -10,4 +10,8 @@ UNITS_LOCAL = {"C12": [
                "checked by the happens-before race detector in every execution; distinct = distinct (result, batch sizes/order or value sequence)"),
          assumptions=["sequentially consistent interleavings only", "g++ -fsanitize=thread instruments every plain access of the header-only containers",
                       "executions needing more deviations than the completed bound are not covered"]),
+    Unit("bursts", ["harness/C12_bursts.cpp"], cxx="clang++", flags=ASAN, env=ASAN_ENV, engine="seqmc",
+         rule="one thread alternately producing and consuming: every burst length 0..600 and the boundaries 1023..1025, 32767/8, 65535..65537, 131072, 196608 of assignments "
+              "between two update() calls (int and heap-owning payloads, several rounds), and every batch size of the same set between two consume() calls",
+         assumptions=["single-threaded histories; the interleavings are decided by the transactional unit"]),
 ]}
